@@ -20,12 +20,18 @@ type Tree struct {
 	Pre func(w *World) any
 	// Visit is called after child executed b (res); return false to stop descending.
 	Visit func(path []ABlock, pre any, child *World, res *Result) bool
-	sem   chan struct{}
-	wg    sync.WaitGroup
+	// Only, when set, restricts the search to this one history (used to re-execute a
+	// reported violation on a fresh root).
+	Only []ABlock
+	sem  chan struct{}
+	wg   sync.WaitGroup
 }
 
 func (t *Tree) Explore(root *World) {
 	t.sem = make(chan struct{}, runtime.NumCPU()*2)
+	if t.Only != nil {
+		t.Depth = len(t.Only)
+	}
 	t.walk(root, nil, 0, false)
 	t.wg.Wait()
 }
@@ -45,6 +51,9 @@ func (t *Tree) walk(w *World, path []ABlock, depth int, owned bool) {
 	}
 	t.Run.States.Add(1)
 	menu := t.Menu(w, path)
+	if t.Only != nil {
+		menu = []ABlock{t.Only[depth]}
+	}
 	var pre any
 	if t.Pre != nil {
 		pre = t.Pre(w)
